@@ -25,6 +25,41 @@ CHECKS = {
         design_ref='DESIGN.md 5 (C13), 12'),
 }
 
+E2E_NOTE = ('Crawl.tla models the URL table, producer/workers, the visit loop (filters, robots, redirects, retries) and '
+            'crash/restart; the real application (Builder -> Application.run, real SQLite table, real HTTP client, real '
+            'scrapers) crawls scripted sites over an in-memory network under a deterministic loop; every recorded trace '
+            '(table transactions after commit, requests seen by the server, visits, crash, exit) is judged by TLC with '
+            'CrawlMon.tla, whose reference sets (which URLs must / may be requested) are computed in TLA+ from the site '
+            'and the documented meaning of the options.')
+CHECKS.update({
+    'C01': dict(technique='TLA+ crawl model + TLC; traces of complete real crawls validated by the TLA+ monitor CrawlMon',
+                text='Exactly-once / completeness / all-rows-final judged by TLC on traces of real crawls: a catalogue of site '
+                     'shapes (diamond with unequal paths, cycles, self links, duplicate and differently spelled links, '
+                     'same-host redirects, page requisites, depth limits, two start URLs) x options x concurrency 1..4, '
+                     'with every order in which the server can answer concurrent requests explored by stateless DFS '
+                     '(bounded).  ' + E2E_NOTE, design_ref='DESIGN.md 5 (C01)'),
+    'C03': dict(technique='TLA+ crawl model with Crash/Restart + TLC; crash-point enumeration on the real application, '
+                          'two-run traces validated by CrawlMon',
+                category='model_checking',
+                text='For every event of a complete crawl (each table transaction after commit, each request/response) a '
+                     'forked child running the real application is killed with os._exit right after it; the same command is '
+                     'then run again on the same on-disk database; the concatenated two-run trace is judged by TLC: nothing '
+                     'done before the kill is requested again, nothing stuck in progress, no discovered row lost, the two '
+                     'runs together cover the uninterrupted crawl.  ' + E2E_NOTE, design_ref='DESIGN.md 5 (C03)'),
+    'C18': dict(technique='TLA+ crawl model (adversarial server) + TLC; real crawls against hostile scripted servers '
+                          'validated by CrawlMon',
+                text='Redirect loops and chains over 301/302/307/308, missing and unparsable Location, perpetual 5xx, '
+                     'connection drops and 401 with/without credentials, for tries 1..3 and max-redirect 0..5: per visit '
+                     'the number of requests is bounded by max-redirect + 1 (+1 authentication retry), no request is made '
+                     'for an item whose tries are exhausted, and every crawl terminates with no pending work.  ' + E2E_NOTE,
+                design_ref='DESIGN.md 5 (C18)'),
+    'C20': dict(technique='TLA+ crawl model with robots pool + TLC; real crawls with robots.txt scenarios validated by CrawlMon',
+                text='Disallowed URLs never requested (directly or as redirect hop), robots.txt obtained before any page of '
+                     'its origin and not fetched again once obtained, nofollow pages not followed, missing robots.txt '
+                     'allows all, 5xx on robots.txt postpones; agent groups and large files; one and two origins; '
+                     'concurrency 1..2 with all answer orders.  ' + E2E_NOTE, design_ref='DESIGN.md 5 (C20)'),
+})
+
 NOT_YET = {}
 
 
